@@ -32,6 +32,12 @@ def gen(tier, rng, harness=None):
     for _, t in twingen.twin_texts():
         lines.append("!mod.closure - %s" % hx(t))
         lines.append("!mod.closure2 - %s" % hx(t))
+    # references by NUMBER across entities of other namespaces written in between (each with an ID of its own): `@1` is the second unnamed global
+    from . import catalog
+    for name, text, frags in catalog.order_entries():
+        if name.startswith("numbering."):
+            lines.append("!mod.keeps %s %s" % (hx("\x1f".join(frags or [])), hx(text)))
+            lines.append("!mod.closure - %s" % hx(text))
     for m, text, sk in modprops.gen_modules(rng, n):
         lines.append("mod.outcome %s %s" % (hx(sk), hx(text)))
         lines.append("mod.lists %s %s" % (hx(sk), hx(text)))
